@@ -345,9 +345,43 @@ def rule_r7(ctx) -> RuleResult:
                            "`{{{{#invoke:m|f|1=x|a}}}}` gives args[1] = 'x' where the equivalent template call passes `a`".format(what), store.lineno))
         else:
             loops.add(id(own[0]))
+    # every argument reaches a store: an iteration that is abandoned (`continue`/`break`) without having stored drops that
+    # argument -- in the duplicate-key branch this makes the *first* occurrence win where the expander lets the last one win
+    store_ids = {id(st) for st, _ in list_sites}
+    for store, own in list_sites:
+        if not own or not isinstance(own[0], ast.For) or id(own[0]) not in loops:
+            continue
+        loop = own[0]
+
+        def scan(block, stored):
+            for st in block:
+                if isinstance(st, (ast.Continue, ast.Break)) and not stored:
+                    return st
+                if id(st) in store_ids or any(id(x) in store_ids for x in ast.walk(st)) and not isinstance(st, (ast.If, ast.Try, ast.With)):
+                    stored = True
+                if isinstance(st, ast.If):
+                    for blk in (st.body, st.orelse):
+                        r = scan(blk, stored)
+                        if r is not None:
+                            return r
+                    if all(any(id(x) in store_ids for b_ in blk for x in ast.walk(b_)) for blk in (st.body, st.orelse)) and st.orelse:
+                        stored = True
+                elif isinstance(st, (ast.With, ast.Try)):
+                    r = scan(st.body, stored)
+                    if r is not None:
+                        return r
+            return None
+
+        esc = scan(loop.body, False)
+        if esc is not None:
+            rr.bad(Finding("C08.R7", LX, MF, "`{}` before the store into frame_args".format(unparse(esc)),
+                           "an iteration of the loop over the arguments is abandoned before the argument is stored: the argument is dropped "
+                           "(for a key given twice, `{{#invoke:m|f|a|1=b}}`, the first value stays where the equivalent template call "
+                           "passes the last one)", esc.lineno))
+        break
     if not rr.findings:
         if len(loops) == 1:
-            rr.ok(MF, "all stores for an argument vector sit in the one loop over args")
+            rr.ok(MF, "all stores for an argument vector sit in the one loop over args; no iteration is abandoned before its store")
         else:
             rr.bad(Finding("C08.R7", LX, MF, "frame_args filled by {} loops".format(len(loops)), "the argument table is filled by more than one pass", mf.lineno))
     return rr
